@@ -269,8 +269,16 @@ def rank_min(rep, ex: Explorer):
 
 
 def accept_decision(rep, ex: Explorer):
-    """ACCEPT.decision on conditional_acceptance."""
-    qual = f"{PO}.conditional_acceptance"
+    """ACCEPT.decision on conditional_acceptance - of the base class and of every subclass that spells out its own (the
+    verdict of a System Z or c-representation object is that subclass's method)."""
+    prog = ex.prog
+    owners = [PO] + sorted(c for c in prog.classes if c != PO and PO in prog.mro(c) and "conditional_acceptance" in prog.classes[c].methods)
+    for owner in owners:
+        _accept_decision_of(rep, ex, owner)
+
+
+def _accept_decision_of(rep, ex: Explorer, owner):
+    qual = f"{owner}.conditional_acceptance"
     site = fn_label(ex.prog, qual)
 
     held = {}
@@ -281,10 +289,10 @@ def accept_decision(rep, ex: Explorer):
         return Sym(("frank", F.canon(f.f) if isinstance(f, FormulaV) else desc(f)), "optint")
 
     def setup(I):
-        held["self"] = _obj(I)
+        held["self"] = _obj(I) if owner == PO else _obj(I, cls=owner, extra=lambda I_: {"_z_partition": ElemV(("zpart",), "coll"), "_impacts": ElemV(("impacts",), "coll")})
         return [held["self"], make_query()], {}
 
-    paths = ex.run(qual, setup, summaries=_summ({f"{PO}.formula_rank": frank}), key="accept")
+    paths = ex.run(qual, setup, summaries=_summ({f"{PO}.formula_rank": frank}), key="accept-" + owner)
     # the two ranks are those of this ranking function: taken on another object (a marginal, a conditionalisation - both are
     # built from the ranks *stored* so far, unranked worlds left out) they are ranks of something else as long as not every
     # world was ranked before
@@ -323,8 +331,13 @@ def accept_decision(rep, ex: Explorer):
                     elif (k[2], k[3]) == (N, V):
                         lt = ("rev", v)
             unknown = [k for k in env if k not in (("isnone", V), ("isnone", N)) and not (k[0] == "cmp" and k[1] == "<")]
+            # a test of an attribute of the conditional asked about (its strength, its text) is a test of the input: the property
+            # holds for every conditional, so each of its outcomes is a case of its own and the row is judged as it stands
+            of_input = [k for k in unknown if "('obj', 'query')" in repr(k) and "frank" not in repr(k) and "self" not in repr(k)]
+            unknown = [k for k in unknown if k not in of_input]
             if unknown:
                 raise AnalysisError(f"{site}: acceptance depends on {unknown[0]!r}")
+            case_ = "".join(f" [{F.show_desc(k) if hasattr(F, 'show_desc') else k!r}={env[k]}]" for k in of_input)[:80]
             n += 1
             if vn is True:
                 want, slot = False, "v undefined"
@@ -335,7 +348,7 @@ def accept_decision(rep, ex: Explorer):
                     raise AnalysisError(f"{site}: both ranks defined but not compared")
                 if isinstance(lt, tuple):
                     # n < v was tested: accepted iff v < n; with n<v True -> False; n<v False -> v<=n : cannot decide strictness
-                    rep.violation("ACCEPT.decision", site, "comparison", "accepted iff rank(A∧B) < rank(A∧¬B) (strict)", extracted="compares rank(A∧¬B) < rank(A∧B)", required="rank(A∧B) < rank(A∧¬B)", function=site)
+                    rep.violation("ACCEPT.decision", site, "comparison" + case_, "accepted iff rank(A∧B) < rank(A∧¬B) (strict), for every conditional", extracted="compares rank(A∧¬B) < rank(A∧B)" + case_, required="rank(A∧B) < rank(A∧¬B)", function=site)
                     continue
                 want, slot = lt, f"both defined, v<n={lt}"
             elif vn is None and isinstance(val, bool):
@@ -346,7 +359,7 @@ def accept_decision(rep, ex: Explorer):
                 continue
             else:
                 raise AnalysisError(f"{site}: acceptance path without a test of rank(A∧B)")
-            rep.check(val == want, "ACCEPT.decision", site, slot, f"answer {val}", extracted=str(val), required=str(want), function=site)
+            rep.check(val == want, "ACCEPT.decision", site, slot + case_, f"answer {val}", extracted=str(val), required=str(want), function=site)
     rep.floor("ACCEPT.decision rows", n, 3)
 
 
@@ -2334,3 +2347,54 @@ def save_no_mutation(rep, ex: Explorer):
                       extracted=(f"`{_ast.unparse(bad)[:90]}` at line {bad.lineno}, file operation at line {last_io}" if bad is not None else "no write to self before the file operations"),
                       required="no write to self", function=site)
     rep.floor("writers looked at for SAVE.unchanged", n, 2)
+
+
+def custom_init(rep, ex: Explorer):
+    """CUSTOM.init (by evaluation): the custom ranking object is what the caller described - its rank table is the mapping
+    passed, its signature the list passed with it (the positions of the world strings are positions of *that* list; a base
+    passed along supplies the signature only when none is given), its conditionals those of the base (none without one).
+    Evaluated on the four combinations of base / signature given or not."""
+    prog = ex.prog
+    qual = f"{CUS}.__init__"
+    if qual not in prog.functions:
+        raise AnalysisError(f"{qual} not found")
+    site = fn_label(prog, qual)
+    n = 0
+    for with_base in (False, True):
+        for with_sig in (False, True):
+            if not with_base and not with_sig:
+                continue
+
+            def setup(I, with_base=with_base, with_sig=with_sig):
+                me = I.alloc(HObj(CUS, {}))
+                base = Const(None)
+                if with_base:
+                    base = I.alloc(HObj("inference.belief_base.BeliefBase", {"signature": I.new_list([Const("a"), Const("b")]), "conditionals": Sym("BASE_CONDS"), "name": Const("kb")}))
+                sig = I.new_list([Const("c"), Const("a"), Const("b")]) if with_sig else Const(None)
+                I._custom_me = me
+                return [me, Sym("RANKS"), base, sig, Const(None)], {}
+
+            I_ = Interp(prog)
+            paths = I_.explore(qual, setup)
+            if ex.report is not None:
+                ex.report.absorb_stats(I_)
+            slot = f"base {'given' if with_base else 'absent'}, signature {'given' if with_sig else 'absent'}"
+            if len(paths) != 1 or paths[0].outcome[0] != "return":
+                raise AnalysisError(f"{site}: {len(paths)} paths / {[p.outcome[0] for p in paths]} on concrete arguments ({slot})")
+            p = paths[0]
+            me = next((o for o in p.state.heap.values() if isinstance(o, HObj) and o.cls == CUS), None)
+            if me is None:
+                raise AnalysisError(f"{site}: constructed object not found ({slot})")
+            n += 1
+            sg = me.attrs.get("signature")
+            vw = view(p.state, sg) if sg is not None else None
+            got = [x[1].value for x in vw[1] if x[0] == "one" and isinstance(x[1], Const)] if isinstance(vw, tuple) and vw[0] == "list" else repr(vw)
+            want = ["c", "a", "b"] if with_sig else ["a", "b"]
+            rep.check(got == want, "CUSTOM.init", site, f"signature ({slot})", "the signature of a custom ranking is the one passed with its ranks (the bits of the world strings are positions in it); the base's only when none is passed",
+                      extracted=repr(got)[:80], required=repr(want), function=site)
+            rk = me.attrs.get("ranks")
+            rep.check(isinstance(rk, Sym) and rk.label == "RANKS", "CUSTOM.init", site, f"ranks ({slot})", "the rank table is the mapping passed", extracted=repr(rk)[:80], required="the ranks argument", function=site)
+            cd = me.attrs.get("conditionals")
+            okc = (isinstance(cd, Sym) and cd.label == "BASE_CONDS") if with_base else (isinstance(cd, Const) and cd.value is None)
+            rep.check(okc, "CUSTOM.init", site, f"conditionals ({slot})", "the conditionals are those of the base passed (none without a base)", extracted=repr(cd)[:80], required="belief_base.conditionals" if with_base else "None", function=site)
+    rep.floor("custom constructions evaluated", n, 3)
